@@ -579,12 +579,13 @@ impl World {
         let client = self.parties[p].client.clone();
         let gid2 = gid.clone();
         let ext_sender = self.ext.ext_sender.as_ref().map(|(_, sid)| sid.clone());
+        let ext_sender_old = self.ext.ext_sender_old.clone();
         let res = guarded(&self.cfg.property.clone(), "create_group", move || {
             let mut b = client.group_builder()?.with_group_id(gid2).with_now_time(now);
             if let Some(sid) = ext_sender {
                 use mls_rs::extension::MlsExtension;
                 b = b.with_group_context_extension(
-                    mls_rs::extension::built_in::ExternalSendersExt::new(vec![sid])
+                    mls_rs::extension::built_in::ExternalSendersExt::new(ext_sender_old.into_iter().chain([sid]).collect())
                         .into_extension()
                         .map_err(|e| MlsError::from(e))?,
                 );
